@@ -416,7 +416,9 @@ func (c *control) dirAmp(colon, at bool, params []any) {
 			c.invalidDirParam(c.str, c.pos)
 		}
 	}
-	if 0 < len(c.out) && c.out[len(c.out)-1] == '\n' {
+	// Only a positive count is reduced, the most negative one would wrap
+	// around to the largest.
+	if 0 < n && 0 < len(c.out) && c.out[len(c.out)-1] == '\n' {
 		n--
 	}
 	for ; 0 < n; n-- {
